@@ -13,7 +13,7 @@ RULE = ("(c) schedules: for a tree whose 5 (quick) / 6 (thorough) files all pass
         "n! arrival orders at each collector seam of `group` (scan result, rehash#0 prefix, rehash#1 suffix, rehash#2 "
         "content; hook E6 first gathers what the collector would receive, then delivers it in the selected order), one "
         "seam at a time, plus {identity, reverse}^4 across the seams, and the same for a tree with hard links next to a copy under "
-        "--rf-under 3 / --rf-over 2 / --rf-under 2 (all 5! orders per seam); (a) every --threads spec name in {none, main, "
+        "--rf-under 3 / --rf-over 2 / --rf-under 2 (all 5! orders per seam), for a class of five files whose names differ only in invalid UTF-8 bytes / letter case, and for --skip-content-hash (three stages); (a) every --threads spec name in {none, main, "
         "default, ssd} x (r,s) in {0,1,2,64}^2 and pairs main:x + default:y, and 8 large-pool specs x transforms using $IN / $OUT on a tree with equal base names in different directories; (b) every permutation of 3-4 roots and "
         "--stdin, --stdin together with --transform (fclones starts child processes that inherit its descriptors: both orders of 'child runs' / 'fclones signals the child' at every signal the run sends, by pausing the subject at the kill call), and overlapping roots (r, r/sub) in both orders x walking-pool sizes x {--depth 1/2, --hidden, -L}; (e) --cache cold / warm / warm again under transforms that keep, shorten and double the data: report body identical to the uncached one; (d) hash function x --max-prefix-size x --max-suffix-size x disk kind x cache, and a tree split over two devices (scratch fs + loop mount) with every pair of kinds in {ssd, hdd, unknown}^2 pinned per device. A state is one complete "
         "execution of the real binary under one schedule/configuration; transitions are the messages delivered at the "
@@ -50,6 +50,13 @@ MULTI = [
     {"p": "r4/m1", "k": "file", "c": ["base", 12000, 9]}, {"p": "r2/m2", "k": "file", "c": ["flip", 12000, 9, 11999]},
     {"p": "r3/m3", "k": "file", "c": ["base", 12000, 9]},
 ]
+# one class of five files whose names differ only in bytes that are not valid UTF-8 (Latin-1 names on a UTF-8 system),
+# in letter case, or in a directory name of that kind: any order computed from a lossy text form of the path ties them
+SEAM_TREE_ODD = [
+    {"p": "r/caf\udce9", "k": "file", "c": ["base", 70000, 1]}, {"p": "r/caf\udce8", "k": "file", "c": ["base", 70000, 1]},
+    {"p": "r/d\udcff/x", "k": "file", "c": ["base", 70000, 1]}, {"p": "r/d\udcfe/x", "k": "file", "c": ["base", 70000, 1]},
+    {"p": "r/Caf\udce9", "k": "file", "c": ["base", 70000, 1]},
+]
 SITES = ["scan", "rehash#0", "rehash#1", "rehash#2"]
 
 
@@ -68,6 +75,13 @@ def cases(tier, seed):
     for site in ("scan", "rehash#0"):
         out.append({"kind": "seam", "tree": "seam5", "site": site, "chunk": None, "args": ["--transform", "cat"],
                     "sites": ["scan", "rehash#0"]})
+    # names that differ only in invalid UTF-8 bytes: the path order inside the group may not depend on arrival
+    for site in (("scan", "rehash#2") if quick else SITES):
+        out.append({"kind": "seam", "tree": "seamodd", "site": site, "chunk": None})
+    # --skip-content-hash ends after the suffix stage: its report must be just as reproducible
+    for site in (("rehash#1",) if quick else ("scan", "rehash#0", "rehash#1")):
+        out.append({"kind": "seam", "tree": "seam5", "site": site, "chunk": None, "args": ["--skip-content-hash"],
+                    "sites": ["scan", "rehash#0", "rehash#1"]})
     for extra in ((["--rf-under", "3"],) if quick else (["--rf-under", "3"], ["--rf-over", "2"], ["--rf-under", "2"])):
         for site in (("scan", "rehash#2") if quick else SITES):
             out.append({"kind": "seam", "tree": "seamlinks", "site": site, "chunk": None, "args": extra})
@@ -142,7 +156,7 @@ for i, L in enumerate((100, 4096, 4097, 12000, 16384, 16385, 20000, 65536, 70000
 def tree_of(name):
     if name == "two_devices":
         return TWO_DEVICES
-    return {"seam5": SEAM_TREE_5, "seam6": SEAM_TREE_6, "multi": MULTI, "seamlinks": SEAM_TREE_LINKS, "overlap": OVERLAP}[name]
+    return {"seam5": SEAM_TREE_5, "seam6": SEAM_TREE_6, "multi": MULTI, "seamlinks": SEAM_TREE_LINKS, "seamodd": SEAM_TREE_ODD, "overlap": OVERLAP}[name]
 
 
 def roots_of(name):
